@@ -37,6 +37,9 @@ inductive RegKind
                         -- (hand-written memo decorator), or a `nonlocal` rebinding
   | inheritedMemo       -- a memo kept as a class attribute and read through the MRO (`getattr(cls, X)`): a subclass
                         -- hits the entry stored on its base class
+  | mroRead             -- an attribute installed on classes after definition with a computed value is read from a class
+                        -- through the MRO to DECIDE something (`getattr(X, "serialize") is placeholder`): what a base
+                        -- class of X got earlier answers for X
   | configCapture       -- global configuration read while generating something that is installed on a class /
                         -- put into a registry: the value in effect at generation time is frozen per class
   deriving DecidableEq, Repr, Inhabited
@@ -62,12 +65,13 @@ def reviewedOutsideClaim : List String := ["cls._ALL_INSTANCES"]
     of the class (or Field) it belongs to, or explicit global configuration; an UNKEYED registry (one slot for
     all classes) is safe only when it is on the reviewed list -/
 def RegistryRec.safe (r : RegistryRec) : Bool :=
+  reviewedOutsideClaim.contains r.name ||
   (r.key != .className) && (r.key != .otherClass) && (r.key != .unknown || reviewedOutsideClaim.contains r.name) &&
   (r.key != .partialArgs) &&
   (r.key != .useValue) && (r.key != .none || reviewedUnkeyed.contains r.name) &&
   (r.kind != .inPlaceClassAttr) && (r.kind != .inPlaceCacheEntry) && (r.kind != .earlyBoundClassAttr) &&
   (r.kind != .sharedReturnMutated) && (r.kind != .configCapture) && (r.kind != .defaultArg) &&
-  (r.kind != .inheritedMemo)
+  (r.kind != .inheritedMemo) && (r.kind != .mroRead)
 
 /-- stable finding key of an unsafe row (same strings as in known_findings.json) -/
 def RegistryRec.findingKey (r : RegistryRec) : String :=
@@ -76,6 +80,7 @@ def RegistryRec.findingKey (r : RegistryRec) : String :=
   else if r.kind == .earlyBoundClassAttr then "early-bound:" ++ r.name ++ ":" ++ r.site
   else if r.kind == .sharedReturnMutated then "mutates-shared-return:" ++ r.name ++ ":" ++ r.site
   else if r.kind == .configCapture then "config-captured-at-use:" ++ r.name ++ ":" ++ r.site
+  else if r.kind == .mroRead then "mro-read:" ++ r.name ++ ":" ++ r.site
   else if r.kind == .inheritedMemo then "inherited-memo:" ++ r.name ++ ":" ++ r.site
   else if r.kind == .defaultArg then "mutable-default-argument:" ++ r.name
   else match r.key with
@@ -95,6 +100,8 @@ structure Config where
   simplicityByName : Bool     -- `_structure_simplicity_level` memo keyed by class name
   schemaWritesRequired : Bool -- `structure_to_schema` mutates the list held in `cls._required`
   serializerOnBase : Bool     -- `create_serializer` installs `serialize` on another class than `cls`
+  serializerViaMro : Bool     -- `_verify_is_fast_serializable` decides with `getattr(B, "serialize")` (MRO lookup) whether
+                              -- the referenced class B still needs its serializer generated
   deriving DecidableEq, Repr
 
 def hasRow (rows : List RegistryRec) (p : RegistryRec → Bool) : Bool := rows.any p
@@ -107,16 +114,17 @@ def configOf (rows : List RegistryRec) : Config where
   simplicityByName := hasRow rows fun r => (r.name == "_structure_simplicity_level" && r.kind != .inPlaceCacheEntry) && !r.safe
   schemaWritesRequired := hasRow rows fun r => (r.name == "cls._required" && r.site == "structure_to_schema") && !r.safe
   serializerOnBase := hasRow rows fun r => (r.name == "cls.serialize" && r.kind == .classAttrWrite) && !r.safe
+  serializerViaMro := hasRow rows fun r => (r.name == "cls.serialize" && r.kind == .mroRead) && !r.safe
 
 /-- the configuration under which the frame property holds without exclusions -/
 def Config.safe (c : Config) : Bool :=
   !c.wrapperByName && !c.mapperByName && !c.mapperDropsCamel && !c.simplicityByName &&
-  !c.schemaWritesRequired && !c.serializerOnBase
+  !c.schemaWritesRequired && !c.serializerOnBase && !c.serializerViaMro
 
 /-- the part of safety that the current code has (identity-keyed caches, serializer on the class itself) -/
 def Config.cachesById (c : Config) : Bool :=
   !c.mapperByName && !c.mapperDropsCamel && !c.simplicityByName && !c.serializerOnBase
 
-def safeConfig : Config := ⟨false, false, false, false, false, false⟩
+def safeConfig : Config := ⟨false, false, false, false, false, false, false⟩
 
 end Typedpy.World
